@@ -105,6 +105,9 @@ fn build_env(work: &std::path::Path, create: bool) -> Env {
         (Some("AAA4BBB,M3.2.0,M11.1.0".into()), rule("AAA4BBB,M3.2.0,M11.1.0"), RULEZ),
         (Some("!!garbage".into()), sys.clone(), FALLBACK),
         (Some(":/nonexistent/zone".into()), sys.clone(), FALLBACK),
+        // a value that differs from an earlier one only by white space is not the same setting (a name with a trailing
+        // space names no file and is no rule, so the system zone), and a change between the two must be noticed
+        (Some("Europe/Paris ".into()), sys.clone(), FALLBACK),
     ];
     let tokyo = file_zone("/usr/share/zoneinfo/Asia/Tokyo").map(|z| sig_of(&z)).unwrap_or([0; 4]);
     Env { tz: settings.iter().map(|s| s.0.clone()).collect(), sig: settings.iter().map(|s| sig_of(&s.1)).collect(), kind: settings.iter().map(|s| s.2).collect(), zone: settings.into_iter().map(|s| s.1).collect(), decoy: tokyo }
@@ -132,17 +135,25 @@ fn spawn_worker() -> Worker {
     Worker { req: rt, resp: sr }
 }
 
-const NTZ: usize = 11;
-const NEV: usize = 17; // 16 = +1.0 s and then convert on A (one event); 0..11 set TZ; 11 = +0.6 s; 12 = +1.0 s; 13 = convert on A; 14 = convert on B; 15 = convert on a fresh thread
+const NTZ: usize = 12;
+// events: 0..NTZ set TZ to that setting; then +0.6 s; +1.0 s; convert on A; convert on B; convert on a fresh thread;
+// and "+1.0 s and then convert on A" as one event
+const E_W06: usize = NTZ;
+const E_W10: usize = NTZ + 1;
+const E_CA: usize = NTZ + 2;
+const E_CB: usize = NTZ + 3;
+const E_CF: usize = NTZ + 4;
+const E_WCA: usize = NTZ + 5;
+const NEV: usize = NTZ + 6;
 
 fn event_name(env: &Env, e: usize) -> String {
     match e {
-        0..=10 => format!("TZ={:?}", env.tz[e]),
-        11 => "+0.6s".into(),
-        12 => "+1.0s".into(),
-        13 => "convert@A".into(),
-        14 => "convert@B".into(),
-        15 => "convert@fresh".into(),
+        _ if e < NTZ => format!("TZ={:?}", env.tz[e]),
+        E_W06 => "+0.6s".into(),
+        E_W10 => "+1.0s".into(),
+        E_CA => "convert@A".into(),
+        E_CB => "convert@B".into(),
+        E_CF => "convert@fresh".into(),
         _ => "+1.0s,convert@A".into(),
     }
 }
@@ -179,15 +190,15 @@ fn run_history_obs(acc: &mut Acc, env: &Env, hist: &[usize], base_ns: u64, initi
             set_mock_now(Some(base_ns + now));
         }
         match e {
-            0..=10 => {
+            _ if e < NTZ => {
                 set_tz(&env.tz[e]);
                 if real_clock {
                     now = started.elapsed().as_nanos() as u64;
                 }
                 changes.push((now as i64, e));
             }
-            11 | 12 => {
-                let d = if e == 11 { 600_000_000 } else { 1_000_000_000 };
+            E_W06 | E_W10 => {
+                let d = if e == E_W06 { 600_000_000 } else { 1_000_000_000 };
                 if real_clock {
                     std::thread::sleep(std::time::Duration::from_nanos(d + 30_000_000));
                     now = started.elapsed().as_nanos() as u64;
@@ -197,7 +208,7 @@ fn run_history_obs(acc: &mut Acc, env: &Env, hist: &[usize], base_ns: u64, initi
                 }
             }
             _ => {
-                if e == 16 {
+                if e == E_WCA {
                     // compound event: wait one second, then convert on A
                     if real_clock {
                         std::thread::sleep(std::time::Duration::from_millis(1030));
@@ -208,8 +219,8 @@ fn run_history_obs(acc: &mut Acc, env: &Env, hist: &[usize], base_ns: u64, initi
                 }
                 let t_before = if real_clock { started.elapsed().as_nanos() as u64 } else { now };
                 let (got, fresh) = match e {
-                    13 | 14 | 16 => {
-                        let i = if e == 14 { 1 } else { 0 };
+                    E_CA | E_CB | E_WCA => {
+                        let i = if e == E_CB { 1 } else { 0 };
                         let w = workers[i].get_or_insert_with(spawn_worker);
                         let _ = w.req.send(());
                         let r = w.resp.recv().unwrap_or(Err("worker thread died".into()));
@@ -258,7 +269,7 @@ fn run_history_obs(acc: &mut Acc, env: &Env, hist: &[usize], base_ns: u64, initi
                             if fresh {
                                 acc.hit(FRESH);
                             }
-                            if e == 14 {
+                            if e == E_CB {
                                 acc.hit(SECOND);
                             }
                             if allowed.len() > 1 {
@@ -285,7 +296,7 @@ fn run_history_obs(acc: &mut Acc, env: &Env, hist: &[usize], base_ns: u64, initi
 fn decode(mut idx: u64, len: usize) -> Vec<usize> {
     // the last event is always a conversion (3 choices), the others range over the whole menu
     let mut h = vec![0usize; len];
-    h[len - 1] = 13 + (idx % 4) as usize;
+    h[len - 1] = E_CA + (idx % 4) as usize;
     idx /= 4;
     for k in (0..len - 1).rev() {
         h[k] = (idx % NEV as u64) as usize;
@@ -325,7 +336,7 @@ impl Model for HistModel {
     fn next_state(&self, s: &HistState, a: u8) -> Option<HistState> {
         let mut ev = s.events.clone();
         ev.push(a);
-        let ok = if a >= 13 {
+        let ok = if a as usize >= E_CA {
             let h: Vec<usize> = ev.iter().map(|x| *x as usize).collect();
             let mut acc = Acc::new(CLASSES.len(), 0);
             let mut st = std::collections::BTreeSet::new();
@@ -369,7 +380,7 @@ fn worker_main(spec_arg: &str, tier: Tier) -> ! {
     let mut states = std::collections::BTreeSet::new();
     if !real {
         // the harness must own every source of nondeterminism: the same history observed twice gives the same trace
-        let h = [2usize, 13, 6, 11, 13, 12, 14, 16, 15];
+        let h = [2usize, E_CA, 6, E_W06, E_CA, E_W10, E_CB, E_WCA, E_CF];
         let mut o1 = vec![];
         let mut o2 = vec![];
         let mut scratch = Acc::new(CLASSES.len(), i);
@@ -389,7 +400,7 @@ fn worker_main(spec_arg: &str, tier: Tier) -> ! {
         while k < total && done < want {
             let idx = (k * 7919) % total;
             let h = decode(idx, 3);
-            if h.iter().any(|e| *e == 11 || *e == 12) && h.iter().any(|e| *e < 11) {
+            if h.iter().any(|e| *e == E_W06 || *e == E_W10) && h.iter().any(|e| *e < NTZ) {
                 run_history(&mut acc, &env, &h, base_ns, 6, done % 2 == 1, true, &mut states);
                 done += 1;
             }
@@ -433,7 +444,7 @@ fn main() {
         property: "C18",
         classes: CLASSES,
         required: &["conversion", "stale_allowed", "reloaded", "fresh_thread", "second_thread", "fallback_zone", "file_zone", "rule_zone", "changed_within_window", "public_clock_replay"],
-        rule: "one process, the real Local through its public API, two persistent worker threads (each with its own thread-local cache) plus fresh-thread conversions; event menu of 17: set TZ to one of 11 values {unset, empty, :/abs/file, /abs/file, zoneinfo-relative name, :name, fixed POSIX rule, the same rule behind a colon, alternating POSIX rule, garbage, :/nonexistent}, advance the (guarded, mock) clock by 0.6 s or 1.0 s, convert on thread A / B / a fresh thread (a conversion probes 4 fixed instants in both directions inside one step, so its zone signature is observed); ALL event sequences of length <= k ending in a conversion, from four start states (initial TZ unset / a rule, thread A with or without an existing cache), each executed from scratch; oracle: the signature must be exactly that of one zone, namely the zone of a TZ value held at some moment within the last second before the conversion (exactly the current value for a thread's first conversion or when nothing changed for >= 1 s); a decoy file with a zoneinfo-relative name sits in the working directory; a stride of histories is replayed without the clock seam, with real sleeps",
+        rule: "one process, the real Local through its public API, two persistent worker threads (each with its own thread-local cache) plus fresh-thread conversions; event menu of 18: set TZ to one of 12 values {unset, empty, :/abs/file, /abs/file, zoneinfo-relative name, :name, fixed POSIX rule, the same rule behind a colon, alternating POSIX rule, garbage, :/nonexistent, the name with a trailing space}, advance the (guarded, mock) clock by 0.6 s or 1.0 s, convert on thread A / B / a fresh thread (a conversion probes 4 fixed instants in both directions inside one step, so its zone signature is observed); ALL event sequences of length <= k ending in a conversion, from four start states (initial TZ unset / a rule, thread A with or without an existing cache), each executed from scratch; oracle: the signature must be exactly that of one zone, namely the zone of a TZ value held at some moment within the last second before the conversion (exactly the current value for a thread's first conversion or when nothing changed for >= 1 s); a decoy file with a zoneinfo-relative name sits in the working directory; a stride of histories is replayed without the clock seam, with real sleeps",
         assumptions: &["no preemption inside a conversion (getenv/setenv are not interceptable and concurrent use is undefined behaviour)", "the system zone of this sandbox is Etc/UTC, so 'system zone' and the final UTC fallback are observationally equal; private mount namespaces with another /etc/localtime are attempted in the thorough tier and skipped with a note if unshare is refused"],
     };
     let only = replay_unit(&args);
